@@ -373,6 +373,15 @@ func txCode(tr muxdrv.TxResult) (int, string) {
 type ledgerEntry struct {
 	accepted
 	stateRoot hash.Hash
+	ioRoot    hash.Hash
+}
+
+func usum(xs []uint64) uint64 {
+	var t uint64
+	for _, x := range xs {
+		t += x
+	}
+	return t
 }
 
 func (w *appWorld) members(c *scheduler.Committee) []Member {
@@ -693,6 +702,11 @@ func runAppHistory(seed uint64, nblocks int) (res appResult) {
 	}
 	hashes := map[uint64]int{} // round -> interned block hash
 	roots := map[int]int{}     // vote -> state root
+	ios := map[int]int{}       // vote -> IO root
+	mhs := map[int]int{}       // vote -> messages hash
+	var emptyH hash.Hash
+	emptyH.Empty()
+	emptyID := in.id(emptyH)
 	var blocks []string
 	var obs []string
 	evAccepted := map[hash.Hash]bool{} // evidence store keys accepted so far
@@ -763,6 +777,12 @@ func runAppHistory(seed uint64, nblocks int) (res appResult) {
 				one = append(one, vcTerm(ec, ni, si, w.rtID, in))
 				if ec.Header.Header.StateRoot != nil {
 					roots[in.id(ec.ToVote())] = in.id(*ec.Header.Header.StateRoot)
+					if ec.Header.Header.IORoot != nil {
+						ios[in.id(ec.ToVote())] = in.id(*ec.Header.Header.IORoot)
+					}
+					if ec.Header.Header.MessagesHash != nil {
+						mhs[in.id(ec.ToVote())] = in.id(*ec.Header.Header.MessagesHash)
+					}
 				}
 			}
 			vcs = append(vcs, coqout.List(one))
@@ -780,9 +800,12 @@ func runAppHistory(seed uint64, nblocks int) (res appResult) {
 				if ledgerRound != ec.Header.Header.Round {
 					ledger, ledgerRound, discRound = nil, ec.Header.Header.Round, false
 				}
-				ledger = append(ledger, ledgerEntry{accepted{ni, si, ec.IsIndicatingFailure(), ec.ToVote()}, hash.Hash{}})
+				ledger = append(ledger, ledgerEntry{accepted: accepted{ni, si, ec.IsIndicatingFailure(), ec.ToVote()}})
 				if ec.Header.Header.StateRoot != nil {
 					ledger[len(ledger)-1].stateRoot = *ec.Header.Header.StateRoot
+				}
+				if ec.Header.Header.IORoot != nil {
+					ledger[len(ledger)-1].ioRoot = *ec.Header.Header.IORoot
 				}
 				// oracle: what an accepted commitment must look like
 				if pre == nil || ec.Header.Header.Round != w.roundAtTx(pre, bRounds)+1 {
@@ -875,12 +898,15 @@ func runAppHistory(seed uint64, nblocks int) (res appResult) {
 			// the block emitted in BeginBlock is only visible as the parent of the final one
 			hashes[post.LastBlock.Header.Round-1] = in.id(post.LastBlock.Header.PreviousHash)
 		}
+		ngood, nbad := w.lastResults()
 		poolT := "noPool"
 		if post.CommitmentPool != nil {
 			poolT = fmt.Sprintf("(Some (%d, %s))", post.CommitmentPool.HighestRank, coqout.Bool(post.CommitmentPool.Discrepancy))
 		}
 		obs = append(obs, fmt.Sprintf("mkBO %s %s %s %d %d %d %d %d%%Z %s %s", coqout.List(codes), evTerms(bRounds, bDiscs), evTerms(eRounds, eDiscs), halted,
-			post.LastBlock.Header.Round, uint8(post.LastBlock.Header.HeaderType), in.id(post.LastBlock.Header.StateRoot), post.NextTimeout, coqout.Bool(post.Suspended), poolT))
+			post.LastBlock.Header.Round, uint8(post.LastBlock.Header.HeaderType), in.id(post.LastBlock.Header.StateRoot), post.NextTimeout, coqout.Bool(post.Suspended), poolT)+
+			fmt.Sprintf(" %d %d %d %s (%d, %d)", in.id(post.LastBlock.Header.IORoot), in.id(post.LastBlock.Header.PreviousHash), in.id(post.LastBlock.Header.MessagesHash),
+				liveTerm(post.LivenessStatistics), ngood, nbad))
 
 		// ---- oracle S, independent of the model ----
 		res.stats["lastblock:"+hdrName(post.LastBlock.Header.HeaderType)]++
@@ -959,6 +985,44 @@ func runAppHistory(seed uint64, nblocks int) (res appResult) {
 					if ok, why := ruleHolds(ms, plain, ledger[best].sched, ledger[best].vote, discRound, int(w.strag)); !ok {
 						violate(fmt.Sprintf("block %d: Normal block for round %d: %s", b, rnd, why))
 					}
+					// liveness: one more finalized round, accounted to the primary scheduler as finalized or
+					// missed, and every member that committed to the finalized result is credited once
+					if z := post.LivenessStatistics; z != nil {
+						var aT, aL, aF, aM uint64
+						var aLive []uint64
+						if a := pre.LivenessStatistics; a != nil && len(bRounds) == 0 {
+							aT, aL, aF, aM, aLive = a.TotalRounds, usum(a.LiveRounds), usum(a.FinalizedProposals), usum(a.MissedProposals), a.LiveRounds
+						}
+						credited := map[int]bool{}
+						for _, a := range ledger {
+							if !a.fail && a.vote == ledger[best].vote {
+								credited[a.node] = true
+							}
+						}
+						want := 0
+						seenN := map[int]bool{}
+						for i, m := range ms {
+							if credited[m.Node] && !seenN[m.Node] {
+								seenN[m.Node] = true
+								want++
+								before := uint64(0)
+								if aLive != nil {
+									before = aLive[i]
+								}
+								if z.LiveRounds[i] != before+1 {
+									violate(fmt.Sprintf("block %d: member %d committed to the finalized result but was not credited as live", b, m.Node))
+								}
+							}
+						}
+						if z.TotalRounds != aT+1 || usum(z.LiveRounds) != aL+uint64(want) || usum(z.FinalizedProposals)+usum(z.MissedProposals) != aF+aM+1 {
+							violate(fmt.Sprintf("block %d: liveness statistics of a finalized round are inconsistent", b))
+						}
+					} else {
+						violate(fmt.Sprintf("block %d: no liveness statistics after a finalized round", b))
+					}
+					if !post.LastBlock.Header.IORoot.Equal(&ledger[best].ioRoot) {
+						violate(fmt.Sprintf("block %d: Normal block does not carry the finalized proposal's IO root", b))
+					}
 					if discRound {
 						res.stats["normal:after discrepancy resolution"]++
 					} else {
@@ -969,9 +1033,20 @@ func runAppHistory(seed uint64, nblocks int) (res appResult) {
 					if !post.LastBlock.Header.StateRoot.Equal(&pre.LastBlock.Header.StateRoot) {
 						violate(fmt.Sprintf("block %d: %s block changed the state root", b, hdrName(post.LastBlock.Header.HeaderType)))
 					}
+					if !post.LastBlock.Header.IORoot.Equal(&emptyH) || !post.LastBlock.Header.MessagesHash.Equal(&emptyH) {
+						violate(fmt.Sprintf("block %d: %s block with a non-empty IO root / messages hash", b, hdrName(post.LastBlock.Header.HeaderType)))
+					}
 					if post.LastBlock.Header.HeaderType == block.RoundFailed {
 						res.nontriv = true
 						res.stats["normal:(RoundFailed block instead)"]++
+						// liveness: a failed round blames exactly the primary scheduler, credits nobody
+						if len(bRounds) == 0 && pre.LivenessStatistics != nil && post.LivenessStatistics != nil {
+							a, z := pre.LivenessStatistics, post.LivenessStatistics
+							if z.TotalRounds != a.TotalRounds || usum(z.LiveRounds) != usum(a.LiveRounds) ||
+								usum(z.FinalizedProposals) != usum(a.FinalizedProposals) || usum(z.MissedProposals) != usum(a.MissedProposals)+1 {
+								violate(fmt.Sprintf("block %d: liveness statistics of a failed round are inconsistent", b))
+							}
+						}
 					}
 				}
 				ledger, discRound = nil, false
@@ -996,13 +1071,55 @@ func runAppHistory(seed uint64, nblocks int) (res appResult) {
 	for _, k := range rk {
 		rs = append(rs, fmt.Sprintf("(%d, %d)", k, roots[k]))
 	}
+	tab := func(m map[int]int) string {
+		var ks []int
+		for k := range m {
+			ks = append(ks, k)
+		}
+		sort.Ints(ks)
+		var l []string
+		for _, k := range ks {
+			l = append(l, fmt.Sprintf("(%d, %d)", k, m[k]))
+		}
+		return coqout.List(l)
+	}
 	var pairs []string
 	for i := range obs {
 		pairs = append(pairs, fmt.Sprintf("(%s, %s)", obs[i], obsEv[i]))
 	}
-	res.term = fmt.Sprintf("((mkRP %d %d%%Z 32 %s %s, (%s, %d), (%d, %d), %s), %s)", w.strag, w.timeout, coqout.List(hs), coqout.List(rs),
+	res.term = fmt.Sprintf("((mkRP %d %d%%Z 32 %s %s %s %s %d, (%s, %d), (%d, %d), %s), %s)", w.strag, w.timeout, coqout.List(hs), coqout.List(rs), tab(ios), tab(mhs), emptyID,
 		coqout.Bool(w.slashAmt > 0), appMaxEvidenceAge, round0, root0, coqout.List(blocks), coqout.List(pairs))
 	return res
+}
+
+func liveTerm(l *roothash.LivenessStatistics) string {
+	if l == nil {
+		return "noLive"
+	}
+	f := func(xs []uint64) string {
+		var o []string
+		for _, x := range xs {
+			o = append(o, fmt.Sprint(x))
+		}
+		return coqout.List(o)
+	}
+	return fmt.Sprintf("(Some (%d, %s, %s, %s))", l.TotalRounds, f(l.LiveRounds), f(l.FinalizedProposals), f(l.MissedProposals))
+}
+
+// lastResults: number of good / bad compute entities recorded for the last normal round.
+func (w *appWorld) lastResults() (int, int) {
+	defer func() { _ = recover() }()
+	ctx := context.Background()
+	ist, err := abciAPI.NewImmutableStateAt(ctx, w.rep.Srv.State(), 0)
+	if err != nil {
+		return 0, 0
+	}
+	defer ist.Close()
+	r, err := roothashState.NewImmutableState(ist).LastRoundResults(ctx, w.rtID)
+	if err != nil || r == nil {
+		return 0, 0
+	}
+	return len(r.GoodComputeEntities), len(r.BadComputeEntities)
 }
 
 func hdrName(t block.HeaderType) string {
